@@ -187,15 +187,6 @@ theorem refused_call_propagates (sw : Switches) (cfg : CallCfg) (st : ClientStat
 
 /-! ### every other method: the generic body, keeping the response object for the decorator -/
 
-/-- `callWith` as the decorator sees it: the exception carries the response it was raised for -/
-def callWithI {α : Type} (cfg : SendCfg) (st : ClientState) (req : Request) (post : Bytes → Py α) (arr : List Frame) : Inner :=
-  match (sendRequest cfg st req none arr).outcome with
-  | .none => .ret none
-  | .raised e r _ => .exc e r
-  | .resp r => match post r.data with
-    | .ok _ => .ret (some r)
-    | .error e => .exc e (some r)
-
 /-- `callWithI` is `callWith` with the response object kept: same return / raise, same exception -/
 theorem callWithI_erases {α : Type} (cfg : SendCfg) (st : ClientState) (req : Request) (post : Bytes → Py α) (arr : List Frame) :
     (callWith cfg st req post arr = .ret none ↔ callWithI cfg st req post arr = .ret none) ∧
@@ -258,9 +249,55 @@ theorem callWith_negative_delivery {α : Type} (sw : Switches) (cfg : SendCfg) (
       rw [ho] at h; simp only [] at h
       cases hp : post r'.data with
       | ok v => rw [hp] at h; simp at h
-      | error e => rw [hp] at h; simp at h
+      | error e =>
+        rw [hp] at h; simp at h
+        obtain ⟨he, hc⟩ := h; subst he; simp [PyErr.carriesResponse] at hc
   | some r => exact (verdict_is_the_failure sw r).1 c hw
 
+
+/-! ### the seed/key composite -/
+
+/-- the same without the case split: a refusal by the builder is raised without a response, which is well-formed as it is -/
+theorem callInner_wf' (cfg : CallCfg) (st : ClientState) (e : Entry) (arr : List Frame) (hstd : cfg.std > 2006 → cfg.std ≥ 2013)
+    (hlevel : ∀ l x, (e = .requestSeed l x ∨ e = .sendKey l x) → 1 ≤ l ∧ l ≤ 0x7E) : WfInner (callInner cfg st e arr).inner := by
+  rcases callInner_wf cfg st e arr hstd hlevel with ⟨err, herr, _⟩ | hw
+  · unfold callInner; rw [herr]; cases err <;> simp [WfInner]
+  · exact hw
+
+/-- **the seed/key composite hands only well-formed outcomes to its decorator**: both inner calls are made undecorated, so what it raises is
+    what one of them raised -/
+theorem unlockInner_wf (cfg : CallCfg) (st : ClientState) (hasAlgo : Bool) (algo : Bytes → Int → Bytes) (L : Int) (sp : Bytes) (arr1 arr2 : List Frame)
+    (hstd : cfg.std > 2006 → cfg.std ≥ 2013) (hL : 1 ≤ L ∧ L ≤ 0x7E) : WfInner (unlockInner cfg st hasAlgo algo L sp arr1 arr2).inner := by
+  unfold unlockInner
+  cases hasAlgo with
+  | false => simp [WfInner]
+  | true =>
+    simp only [Bool.not_true, Bool.false_eq_true, if_false]
+    have h1 := callInner_wf' cfg st (.requestSeed L sp) arr1 hstd (by
+      intro l x h; rcases h with h | h
+      · cases h; exact hL
+      · cases h)
+    cases hi : (callInner cfg st (.requestSeed L sp) arr1).inner with
+    | exc e r => rw [hi] at h1; simp only []; exact h1
+    | ret r =>
+      cases r with
+      | none => simp [WfInner]
+      | some resp =>
+        rw [hi] at h1
+        simp only []
+        split
+        · exact h1
+        · simp only []
+          exact callInner_wf' cfg _ (.sendKey L _) arr2 hstd (by
+            intro l x h; rcases h with h | h
+            · cases h
+            · cases h; exact hL)
+
+/-- **unlock_security_access: the switches change delivery, never the outcome** -/
+theorem unlock_switch_independent (sw sw' : Switches) (cfg : CallCfg) (st : ClientState) (hasAlgo : Bool) (algo : Bytes → Int → Bytes) (L : Int) (sp : Bytes)
+    (arr1 arr2 : List Frame) (hstd : cfg.std > 2006 → cfg.std ≥ 2013) (hL : 1 ≤ L ∧ L ≤ 0x7E) :
+    (deliver sw (unlockInner cfg st hasAlgo algo L sp arr1 arr2).inner).verdict = (deliver sw' (unlockInner cfg st hasAlgo algo L sp arr1 arr2).inner).verdict :=
+  (delivery_only sw sw' _ (unlockInner_wf cfg st hasAlgo algo L sp arr1 arr2 hstd hL)).1
 
 /-! ### the families: for every request whatsoever (also one the builder would not produce) and every reply schedule -/
 
